@@ -6,6 +6,7 @@ import (
 	"github.com/go-kid/ioc/container"
 	"github.com/go-kid/ioc/definition"
 	"github.com/pkg/errors"
+	"reflect"
 )
 
 type propertiesAwarePostProcessors struct {
@@ -21,7 +22,12 @@ func NewPropertiesAwarePostProcessors() container.InstantiationAwareComponentPos
 			NodeType: component_definition.PropertyTypeConfiguration,
 			Tag:      definition.PrefixTag,
 			ExtractHandler: func(meta *component_definition.Meta, field *component_definition.Field) (tag, tagVal string, ok bool) {
-				if configuration, infer := field.Value.Interface().(definition.ConfigurationProperties); infer {
+				value := field.Value
+				if value.Kind() == reflect.Pointer && value.IsNil() {
+					//the prefix is a property of the type: ask a fresh value instead of calling Prefix() through a nil pointer (a value receiver would panic)
+					value = reflect.New(value.Type().Elem())
+				}
+				if configuration, infer := value.Interface().(definition.ConfigurationProperties); infer {
 					tagVal = configuration.Prefix()
 					ok = true
 				}
